@@ -7,8 +7,10 @@
 EXTENDS Integers, Sequences, FiniteSets, TLC, Json
 
 CONSTANTS Triples         \* set of <<n, p, q>>: number of agents and skew p/q (chosen so that n(n-1)(p+q) stays below 2^31)
-VARIABLES n, p, q, dist, phase
-skvars == <<n, p, q, dist, phase>>
+VARIABLES n, p, q, dist, phase,
+          used        \* the weight vectors handed to the drawing routine so far in this run (one per drawn list)
+skvars == <<n, p, q, dist, phase, used>>
+MaxDraws == 2
 
 (* unnormalised weight i over the common denominator (n-1)q:               *)
 (*   1 + (i-1)(s-1)/(n-1)  =  ((n-1)q + (i-1)(p-q)) / ((n-1)q)             *)
@@ -20,9 +22,11 @@ Weights(nn, pp, qq) ==
     IF nn = 1 THEN << <<1, 1>> >>
     ELSE LET total == SumRaw(nn, pp, qq, nn) IN [i \in 1 .. nn |-> <<RawNum(nn, pp, qq, i), total>>]
 
-Init == \E t \in Triples : n = t[1] /\ p = t[2] /\ q = t[3] /\ dist = <<>> /\ phase = "args"
-Compute == /\ phase = "args" /\ dist' = Weights(n, p, q) /\ phase' = "done" /\ UNCHANGED <<n, p, q>>
-Spec == Init /\ [][Compute]_skvars
+Init == \E t \in Triples : n = t[1] /\ p = t[2] /\ q = t[3] /\ dist = <<>> /\ phase = "args" /\ used = <<>>
+Compute == /\ phase = "args" /\ dist' = Weights(n, p, q) /\ phase' = "done" /\ UNCHANGED <<n, p, q, used>>
+(* every preference list of the run is drawn with the weights computed from THIS run's arguments *)
+Draw == /\ phase = "done" /\ Len(used) < MaxDraws /\ used' = Append(used, dist) /\ UNCHANGED <<n, p, q, dist, phase>>
+Spec == Init /\ [][Compute \/ Draw]_skvars
 
 Done == phase = "done"
 REq(a, b)  == a[1] * b[2] = b[1] * a[2]
@@ -40,5 +44,8 @@ LastIsSTimesFirst == Done /\ n >= 2 /\ p <= 2000 /\ q <= 2000 => dist[n][2] = di
 (* the same ratio without a product of p and q (skews like 100001/100000): first : last = (n-1)q : (n-1)p *)
 LastFirstRatio == Done /\ n >= 2 => dist[n][2] = dist[1][2] /\ dist[1][1] = (n - 1) * q /\ dist[n][1] = (n - 1) * p
 SingleAgent == Done /\ n = 1 => dist = << <<1, 1>> >>
-Export == Done => PrintT("EXPORT " \o ToJson([n |-> n, p |-> p, q |-> q, dist |-> dist]))
+(* C17 speaks of the weights USED FOR DRAWING: whatever reaches the drawing routine in a run with arguments  *)
+(* (n, p/q) is Weights(n, p, q) - not the weights of an earlier run of the same process, nor of another n.  *)
+UsedAreThisRuns == \A i \in DOMAIN used : used[i] = Weights(n, p, q)
+Export == Done /\ used = <<>> => PrintT("EXPORT " \o ToJson([n |-> n, p |-> p, q |-> q, dist |-> dist]))
 =============================================================================
